@@ -393,14 +393,14 @@ def main(tier):
                 r['error'] = f'counterexample did not reproduce on the real code: {rec}'
                 run.inconclusive.append(r)
     from vlib import xprop
-    jobs = [dict(path='/verif/xh/h_c06.py', fname='_c06_biology', params={}, timeout=300, self_reach=True, label='file level: contig orientation / order / case',
+    jobs = [dict(path='/verif/xh/h_c06.py', fname='_c06_biology', params={}, timeout=300, self_reach=True, unblock=['open', 'os.remove', 'os.mkdir', 'shutil.rmtree', 'os.listdir', 'os.scandir', 'os.rmdir'], label='file level: contig orientation / order / case',
                  bounds={'genomes': '3 three-contig genomes (contigs of exactly prefix+k, matches flush with contig ends, mixed case, N runs, a boundary-spanning k-mer, a too-short contig)',
                          'orientation': 'every subset of contigs reverse-complemented', 'order': 'all 6 contig orders', 'case': 'original / upper / lower / alternating'}),
-            dict(path='/verif/xh/h_c06.py', fname='_c06_form', params={}, timeout=300, self_reach=True, label='file level: line width / line endings / final newline / compression / file name',
+            dict(path='/verif/xh/h_c06.py', fname='_c06_form', params={}, timeout=300, self_reach=True, unblock=['open', 'os.remove', 'os.mkdir', 'shutil.rmtree', 'os.listdir', 'os.scandir', 'os.rmdir'], label='file level: line width / line endings / final newline / compression / file name',
                  bounds={'line width': '1, 7, 60, unwrapped', 'line endings': 'LF / CRLF', 'final newline': 'yes / no', 'compression': 'none / gzip / multi-member gzip (members split mid-record)',
                          'file name': 'genome.fasta / genome.fasta.gz / genome / genome.gz.txt (independent of the content)'})]
-    xprop.run_jobs(run, jobs, rung='X: real parser and decompression on in-memory files')
-    run.stubs.append('X: gambit.util.io.open -> in-memory file with generated content (the real gzip / text / Bio.SeqIO layers run)')
+    xprop.run_jobs(run, jobs, rung='X: real parser and decompression on real scratch files')
+    run.stubs.append('X: none (real scratch files of the chosen name and content; the real open / gzip / text / Bio.SeqIO layers run)')
     run.bounds = {'(k,prefix) grid': GRID, 'contig lengths': f'one contig up to {nmax}; two contigs with total {6 if tier == "quick" else 8}', 'bytes': 'all 256 values per position',
                   'compression': 'headers of 2..4 arbitrary bytes x 4 file names x text/binary mode'}
     run.outside = ['FASTA form variations beyond the pooled ones (other widths, other line-ending mixes), other genomes at file level', 'the gzip codec itself beyond the pooled files',
